@@ -64,7 +64,7 @@ ASSUMPTIONS = [
 MUST_REACH = {"filter_evaluations": 20000, "filters_compiled": 1500, "true_verdicts": 2000, "false_verdicts": 2000,
               "type_mismatch_leaves_evaluated": 300, "subfield_leaves_evaluated": 100, "view_ops": 1500, "view_checks": 1500,
               "window_overflows": 100, "refilters_with_aged_out_visible": 20, "export_import_checked": 100,
-              "freeze_thaw_checked": 100, "untouched_lazy_freeze_thaw_checked": 100, "untouched_lazy_freeze_thaw_checked:split-runs": 20, "entry_kinds_covered": 6, "directed_equality_pairs": 300, "directed_wildcard_subfield_leaves": 100, "tz_covered": 3}
+              "freeze_thaw_checked": 100, "frozen_hand_typed_entries_with_message_meta": 50, "untouched_lazy_freeze_thaw_checked": 100, "untouched_lazy_freeze_thaw_checked:split-runs": 20, "entry_kinds_covered": 6, "directed_equality_pairs": 300, "directed_wildcard_subfield_leaves": 100, "tz_covered": 3}
 
 PRIM = (int, float, bytes, str, type(None), tuple, TupleCoord)
 OPS = ["==", "!=", "^=", "$=", "~=", ">", ">=", "<", "<=", "&"]
@@ -369,6 +369,9 @@ def typed_message(rng):
         msg.meta["Quux"] = rng.choice([0, 2, "x"])
     if rng.random() < 0.3:
         msg.meta["AgentLocal"] = rng.choice([1, 2, 7])
+    if rng.random() < 0.3:
+        # another name every log entry records by itself: what the message says about itself comes first
+        msg.meta["SelectedLocal"] = rng.choice([0, 3, 7])
     return msg
 
 
@@ -464,9 +467,12 @@ class World:
         entry = LLUDPMessageLogEntry(msg, region, session)
         method = msg.direction.name if msg.direction is not None else ""
         model = model_of_message(msg, base_meta(session, region, method, "LLUDP"), "LLUDP-" + flavour)
-        if flavour == "frozen" or (flavour == "sub" and rng.random() < 0.5):
+        if flavour == "frozen" or (flavour == "sub" and rng.random() < 0.5) or (flavour == "typed" and rng.random() < 0.4):
+            # (the logging wrapper freezes every entry once the views have seen it)
             entry.cache_summary()
             entry.freeze()
+            if flavour == "typed" and msg.meta:
+                self.frozen_typed_with_meta = getattr(self, "frozen_typed_with_meta", 0) + 1
         return entry, model
 
     def eq(self):
@@ -1095,6 +1101,10 @@ def persistence(ctx, world, n):
             flavour = rng.choice(["typed", "template", "template", "lazy", "sub"])
             entry, model = world.lludp(flavour)
             frozen_already = entry._message is None
+            if frozen_already and flavour == "typed":
+                # (what follows edits the logged message before judging; a frozen entry hands out copies)
+                ctx.count("persistence_skipped_frozen_typed_entries")
+                continue
             msg = entry.message
             if flavour == "typed":
                 # hand-typed messages have no template: judge on values instead of on the datagram
@@ -1231,6 +1241,7 @@ def run(ctx):
         view_histories(ctx, world, ctx.pick(40, 300), ctx.pick(40, 80))
         persistence(ctx, world, ctx.pick(80, 1000))
         untouched_lazy(ctx, world, ctx.pick(60, 800))
+        ctx.count("frozen_hand_typed_entries_with_message_meta", getattr(world, "frozen_typed_with_meta", 0))
     finally:
         world.close()
 
